@@ -27,16 +27,18 @@ TIMEOUTS = {"quick": (600, 60), "thorough": (3000, 120)}
 
 
 def BOUNDS(tier):
-    n = 3 if tier == "quick" else 4
+    n = 4 if tier == "quick" else 5
     return {"max_nodes": n, "flavours": ser.FLAVOURS, "key_map": 3, "value_map": 3, "malformed_headers": 6, "user_guide_examples": 3}
 
 
 def shards(tier):
-    n = 3 if tier == "quick" else 4
+    n = 4 if tier == "quick" else 5
     out = []
     for fl in ser.FLAVOURS:
         nn = n if fl == "str" else n - 1
         for sh in shapes_upto(nn, 0):
+            if B.max_siblings(sh) > len(ser.POOL):
+                continue  # not constructible: siblings need distinct names
             out.append({"name": "layout-%s-%s" % (fl, shape_str(sh)), "kind": "layout", "fl": fl, "shape": list(sh)})
     out.append({"name": "reader-examples", "kind": "examples", "no_twin": False})
     return out
